@@ -445,14 +445,15 @@ class World:
 
     def __init__(self, machine=None, *, reorg_limit=200, activation=3, prefetch=100,
                  chunk_size=None, immediate_daemon=True, max_send=None, cache_mb=1200,
-                 daemon=None, extra_env=None):
+                 daemon=None, extra_env=None, small_files=False):
         patch_modules()
         self.machine = machine or Machine()
         self.machine.activate()
         self.loop = VLoop()
         self.loop.enter()
         self.params = dict(reorg_limit=reorg_limit, activation=activation, prefetch=prefetch,
-                           chunk_size=chunk_size, max_send=max_send, cache_mb=cache_mb)
+                           chunk_size=chunk_size, max_send=max_send, cache_mb=cache_mb,
+                           small_files=small_files)
         reset_class_state(chunk_size)
         import electrumx.server.db as dbmod
         import electrumx.server.block_processor as bpmod
@@ -484,6 +485,12 @@ class World:
         self.daemon.errors_mod = daemonmod
         self.notifications = Notifications()
         self.db = dbmod.DB(self.env)
+        if small_files:
+            # the flat files are LogicalFiles split into physical files of a configured size
+            # (16 MB / 2 MB in production); tiny, odd sizes make every flush straddle files
+            self.db.headers_file.file_size = 200
+            self.db.tx_counts_file.file_size = 36
+            self.db.hashes_file.file_size = 100
         self.bp = bpmod.BlockProcessor(self.env, self.db, self.daemon, self.notifications)
         self.bpmod = bpmod
         self.caught_up_event = __import__('asyncio').Event()
